@@ -28,7 +28,7 @@ except Exception:   # pragma: no cover
     pass
 
 ID = "C14"
-RUNS = {"quick": 28_000, "thorough": 1_200_000}
+RUNS = {"quick": 22_000, "thorough": 1_200_000}
 MAX_BATCH = 2000
 SIM_TIME_UNIT = "virtual seconds"
 RULE = (
